@@ -167,7 +167,54 @@ def member_call(em, n, callee, obj, args, rd):
     return None
 
 
+def local_var(em, d, t, init, ind, fn):
+    """locals of library RAII lock types are dropped (M-lock: sequential semantics)"""
+    try:
+        tt = T.strip_quals(T.strip_ref(T.parse(t)))
+    except T.TypeParseError:
+        return None
+    if tt[0] == 'n' and re.match(r'^(shared_lock|unique_lock|lock_guard|scoped_lock)<', norm_name(tt[1])):
+        em.lowerings['M-lock(guard dropped)'] += 1
+        return '  ' * ind + '/* %s %s: lock guard dropped (sequential semantics, M-lock) */\n' % (norm_name(tt[1]), d.get('name'))
+    return None
+
+
+def range_for(em, n, ind, fn):
+    """range-based for over std::vector<void*> (M-vec): index loop over the sequence view"""
+    ii = inner(n)
+    decls = [c for c in ii if c.get('kind') == 'DeclStmt']
+    if len(decls) < 4:
+        raise ExtractError('range-for: unexpected shape')
+    rng = inner(decls[0])[0]
+    loopvar = inner(decls[-1])[0]
+    body = ii[-1]
+    rt = qt(rng)
+    if not re.match(r'^vector<void\*', norm_name(T.type_str(T.strip_quals(T.strip_ref(T.parse(rt)))))):
+        raise ExtractError('range-for over unmodelled range type %s' % rt)
+    rinit = inner(rng)[-1]
+    p = '  ' * ind
+    rn = rng['name'].strip('_')
+    iv = '__i_' + rn
+    em.lowerings['M-vec(range-for -> index loop)'] += 1
+    em.tu.decls[loopvar['id']] = loopvar
+    s = p + '{\n'
+    s += p + '  struct M_vec_voidp *__%s = &(%s);\n' % (rn, em.E(rinit))
+    s += p + '  for (unsigned long %s = 0; %s < __%s->len; %s++)\n' % (iv, iv, rn, iv)
+    s += em.loop_contract(fn)
+    s += p + '  {\n'
+    lvt = em.ctype_of(qt(loopvar))
+    if em.is_ref_type(qt(loopvar)):
+        s += p + '    %s = &(__%s->elem[%s]);\n' % (em.cdecl(lvt, loopvar['name']), rn, iv)
+    else:
+        s += p + '    %s = __%s->elem[%s];\n' % (em.cdecl(lvt, loopvar['name']), rn, iv)
+    s += em.S(body, ind + 2, fn)
+    s += p + '  }\n' + p + '}\n'
+    return s
+
+
 OPTS = {
+    'local_var': local_var,
+    'range_for': range_for,
     'model_type': model_type,
     'operator_call': operator_call,
     'member_call': member_call,
